@@ -320,7 +320,7 @@ def check_grid_setup(rep, F):
             else:
                 rep.broken("R3.5", "%s: store to norm_%s_ not recognised" % (cls, ax))
         # neighbour offsets
-        env = fo.final_env
+        env = fo.exit_env()
         offs = {}
         for d, dd in f.decls.items():
             if dd.get("name") in ("a1", "a2", "b1", "b2", "c1", "c2") and d in env:
